@@ -397,16 +397,11 @@ func c19Run(c c19Case, st *c19Stats) (violation string, harnessErr error) {
 		if pat == "DELETE /vector/indexes/{name}" && resp.status == 204 {
 			anyDrop = true
 		}
-		if pat == "POST /vector/actions/import/commit" && resp.status == 200 && !c.NoSettle && verifkit.Known("import-commit-then-drop-segv") {
-			st.excluded = append(st.excluded, "import-commit-then-drop-segv")
-			// VImportCommit starts an untracked goroutine (RunTurboRefine) that reads the
-			// arena; a drop / compress / Close that unmaps the arena under it faults. That
-			// race is timing dependent, so the campaign waits for the pass to finish.
-			if !c19WaitRefineIdle(20 * time.Second) {
-				st.label("harness:turbo-refine-still-running")
-			}
-		}
-
+		// Note: POST /vector/actions/import/commit starts a background refine pass that
+		// is not awaited here on purpose: since the refine/vacuum passes hold the index's
+		// active lock, a drop / compress / Close right behind it must be safe, and the
+		// campaign exercises exactly that. The pass only rewires graph links, which are
+		// not part of the state digest.
 		// (4) a 4xx answer leaves the database unchanged
 		if !tainted {
 			post, postBroken := env.settledDigest()
